@@ -220,7 +220,12 @@ func replaySpec(w core.Witness) string {
 }
 
 func runSpec(r *core.Run, rtl bool) int {
-	r.ReplayKnown(replaySpec)
+	r.ReplayKnown(func(w core.Witness) string {
+		if w.Kind == "mirror" {
+			return replayMirror(w)
+		}
+		return replaySpec(w)
+	})
 	nPat := r.Pick(1800, 20000)
 	maxLen := r.Pick(5, 6)
 	nDirected := r.Pick(40, 120)
